@@ -229,6 +229,20 @@ fn gen_impl_delegation_trait_defs(
 
                 let impl_receiver: syn::FnArg = match reference {
                     Some((and, lifetime)) => {
+                        // What the method borrows from `&self` it borrows from `__impl`: without
+                        // a receiver, elision would not know which reference the output follows
+                        let lifetime = match lifetime {
+                            Some(lifetime) => {
+                                crate::signature::name_elided_output_lifetimes_as(
+                                    &mut trait_fn.entrait_sig.sig,
+                                    &lifetime,
+                                );
+                                Some(lifetime)
+                            }
+                            None => crate::signature::name_elided_output_lifetimes(
+                                &mut trait_fn.entrait_sig.sig,
+                            ),
+                        };
                         syn::parse_quote! {
                             __impl: #and #lifetime ::#entrait::Impl<EntraitT>
                         }
